@@ -29,6 +29,7 @@ type Exit struct {
 	PanicVal Val
 	Structured bool // panic value is a structured rejection (gooseError)
 	Pos      string
+	Debug    map[string]debugVar // source-level variables as of this exit
 }
 
 type closureVal struct {
@@ -74,6 +75,7 @@ type frame struct {
 	recoverCalled bool
 	debugVars map[string]debugVar
 	parent    *frame
+	curCall   *ssa.CallCommon
 }
 
 type debugVar struct {
@@ -937,7 +939,10 @@ func (fr *frame) instr(ins ssa.Instruction, back map[[2]int]bool) {
 		for _, r := range x.Results {
 			rs = append(rs, fr.val(r))
 		}
-		e := Exit{Kind: exitReturn, Guard: fr.guard, Mem: fr.mem.clone(), Results: rs}
+		e := Exit{Kind: exitReturn, Guard: fr.guard, Mem: fr.mem.clone(), Results: rs, Debug: map[string]debugVar{}}
+		for k, v := range fr.debugVars {
+			e.Debug[k] = v
+		}
 		fr.exits = append(fr.exits, e)
 	case *ssa.Panic:
 		pv := fr.val(x.X)
@@ -1572,6 +1577,10 @@ func (fr *frame) rangeInit(x *ssa.Range) {
 	// todo is itself loop state: kept in a ghost component private to this iterator
 	comp := vc.comp(fmt.Sprintf("G:iter:%s%s", fr.pfx, x.Name()), fmt.Sprintf("(Array %s Bool)", ks))
 	d := ite(eq(m.S, "0"), fmt.Sprintf("((as const (Array %s Bool)) false)", ks), app("select", vc.get(fr.mem, dom), m.S))
+	// a map has length 0 exactly when it has no key
+	_, _, card := vc.mapComps(mt)
+	vc.assume(implies(and(fr.guard, not(eq(m.S, "0"))), eq(eq(app("select", vc.get(fr.mem, card), m.S), bvLit(64, 0)),
+		fmt.Sprintf("(forall ((_k %s)) (! (not (select %s _k)) :pattern ((select %s _k))))", ks, app("select", vc.get(fr.mem, dom), m.S), app("select", vc.get(fr.mem, dom), m.S)))))
 	vc.set(fr.mem, comp, d)
 	vc.iterTypes[comp] = types.NewMap(mt.Key(), types.Typ[types.Bool])
 	fr.vals[x] = Val{T: x.Type(), S: comp}
